@@ -156,6 +156,13 @@ theorem pinv_step {s s' : MState} {m : Step} (h : PInv s) (hs : step s m = some 
       have := pinv_locs h (s.locs.set w (fresh ++ List.take ((s.locs.getD w []).length - c) (s.locs.getD w []))) (by simp)
       exact ⟨this.wf, this.oc, this.noLost, this.dropped, this.exited⟩
     · simp at hs
+  | rearrange w l =>
+    simp only [stepR] at hs
+    split at hs
+    · simp at hs; subst hs
+      have := pinv_locs h (s.locs.set w l) (by simp)
+      exact ⟨this.wf, this.oc, this.noLost, this.dropped, this.exited⟩
+    · simp at hs
   | drop w =>
     simp only [stepR] at hs
     split at hs
